@@ -308,7 +308,10 @@ def evaluate_expression(expr, options=None, locals_=None, builtins=True):
             elif bin_op == '*':
                 # number * number
                 if _is_number(left_value) and _is_number(right_value):
-                    return left_value * right_value
+                    result = left_value * right_value
+                    if isinstance(result, int) and abs(result) > _MAX_EXACT_INTEGER:
+                        return float(left_value) * float(right_value)
+                    return result
 
             elif bin_op == '/':
                 # number / number
@@ -341,6 +344,9 @@ def evaluate_expression(expr, options=None, locals_=None, builtins=True):
             else: # bin_op == '**'
                 # number ** number
                 if _is_number(left_value) and _is_number(right_value):
+                    if isinstance(left_value, int) and isinstance(right_value, int) and right_value > 0 and \
+                       abs(left_value).bit_length() * right_value > 53:
+                        left_value = float(left_value)
                     result = left_value ** right_value
                     return result if not isinstance(result, complex) else None
         except (ArithmeticError, ValueError):
@@ -365,6 +371,10 @@ def evaluate_expression(expr, options=None, locals_=None, builtins=True):
     # Expression group
     # expr_key == 'group'
     return evaluate_expression(expr['group'], options, locals_, builtins)
+
+
+# The largest integer magnitude up to which every integer is a float - beyond it integer arithmetic continues in floats
+_MAX_EXACT_INTEGER = 2 ** 53
 
 
 # Helper to test for a number value - booleans are not numbers
